@@ -471,8 +471,19 @@ impl<'a> Lexer<'a> {
             // we can't properly show the "end of input" span.
             // For now, have the span point at the last byte in the source.
             // See: https://github.com/zkat/miette/issues/219
-            span.start = span.start.saturating_sub(1);
-            span.end = span.start + 1;
+            // Step back to the start of the previous character (not into
+            // the middle of it) and cover that whole character; an empty
+            // source has no character to point at.
+            let source = self.0.source();
+            let mut start = span.start.saturating_sub(1);
+            while !source.is_char_boundary(start) {
+                start -= 1;
+            }
+            span.start = start;
+            span.end = source[start..]
+                .chars()
+                .next()
+                .map_or(start, |c| start + c.len_utf8());
         }
 
         to_source_span(span)
